@@ -2,6 +2,7 @@ package mon
 
 import (
 	"fmt"
+	"math"
 
 	"github.com/antchfx/xpath"
 
@@ -32,6 +33,7 @@ func init() {
 			witnessFamily("C10"),
 			{Name: "chains", N: func(t string) int { return c10NumChains(t) }, Run: c10Chains},
 			{Name: "chainvals", N: func(string) int { return 13 + 169 + 2197 + 28561 }, Run: c10ChainValues},
+			{Name: "longchain", N: tierN(3000, 100000), Run: c10LongChain},
 			{Name: "ws", N: tierN(80000, 3000000), Run: c10Whitespace},
 			{Name: "abbrev", N: tierN(80000, 3000000), Run: c10Abbrev},
 		},
@@ -353,4 +355,92 @@ func comparesTwoBooleans(e xref.Expr) bool {
 		}
 	})
 	return found
+}
+
+// c10LongChain: the value of long unparenthesised operator chains (20-400 operators). Shape: comparisons of
+// arithmetic sub-chains, joined by and/or - so that no comparison has a boolean operand (outside the stated
+// combinations) while all five precedence levels, left associativity and unary minus are mixed at a length no
+// exhaustive family reaches (a parser that re-balances, or loses an operand, every k operators shows here).
+func c10LongChain(c *Case) {
+	g := c.G()
+	total := []int{20, 60, 150, 400}[c.Index%4]
+	var toks []xref.Tok
+	num := func() {
+		if g.Chance(0.15) {
+			toks = append(toks, xref.Tok{S: "-", K: xref.TPunct})
+		}
+		toks = append(toks, xref.Tok{S: g.Pick("1", "2", "3", "4", "5", "7", "9", "0.5", "10", "2.5"), K: xref.TNumber})
+	}
+	op := func(s string) {
+		kind := xref.TPunct
+		switch s {
+		case "or", "and", "div", "mod":
+			kind = xref.TName
+		}
+		toks = append(toks, xref.Tok{S: s, K: kind, Op: true})
+	}
+	arith := func(n int) {
+		num()
+		for i := 0; i < n; i++ {
+			op(g.Pick("+", "-", "*", "div", "mod", "+", "-", "*"))
+			num()
+		}
+	}
+	nops := 0
+	shape := c.Index / 4 % 3
+	switch shape {
+	case 0: // one arithmetic chain
+		arith(total)
+		nops = total
+	default:
+		for nops < total {
+			a, b := 1+g.Intn(6), 1+g.Intn(6)
+			if nops > 0 {
+				op(g.Pick("and", "or"))
+				nops++
+			}
+			arith(a)
+			if shape == 1 || g.Chance(0.8) {
+				op(g.Pick("=", "!=", "<", "<=", ">", ">="))
+				arith(b)
+				nops += b + 1
+			}
+			nops += a
+		}
+	}
+	mode := []string{"std", "min", "wide"}[c.Index%3]
+	src := xref.Join(toks, mode, c.G(1).R)
+	ast, err := xref.Parse(src)
+	if err != nil {
+		panic(fmt.Sprintf("C10: reference parser rejects chain %q: %v", src, err))
+	}
+	d := valueDoc(c.GShared("gdoc", 0))
+	want, oof := xref.SafeEval(ast, xref.NewCtx(d.Root))
+	if oof != "" || comparesTwoBooleans(ast) {
+		c.Skip("chain outside the stated operand combinations")
+		return
+	}
+	ce := c.compile(src, func() map[string]interface{} { return map[string]interface{}{} })
+	if ce == nil {
+		return
+	}
+	got := c.RunEvaluate(ce, d.Root)
+	c.Count("longchain")
+	if !sameValue(got, want) {
+		show := src
+		if len(show) > 600 {
+			show = show[:600] + "..."
+		}
+		c.Violation("CHAIN-VALUE", map[string]interface{}{"expr": src, "shown": show, "operators": nops, "expected": fmtValue(want), "observed": got.String()})
+		return
+	}
+	if f, isNum := want.(float64); isNum && (math.IsNaN(f) || math.IsInf(f, 0)) {
+		c.Count("longchain:value-nan-or-infinite")
+	} else {
+		c.Count("longchain:value-finite-or-boolean")
+	}
+	c.Nontrivial("lc|" + src)
+	c.SampleEvery(301, func() interface{} {
+		return map[string]interface{}{"family": "longchain", "operators": nops, "shape": []string{"arithmetic", "comparisons joined by and/or", "mixed"}[shape], "bytes": len(src)}
+	})
 }
